@@ -40,7 +40,8 @@ class footnotetext(footnote):
     
     def invoke(self, tex):
         output = footnote.invoke(self, tex)
-        self.mark = self.ownerDocument.userdata.get('footnotemarks',[None]).pop(0)
+        marks = self.ownerDocument.userdata.get('footnotemarks')
+        self.mark = marks.pop(0) if marks else None
         return output
 
 #
